@@ -86,7 +86,7 @@ def spaces(tier):
         for combo in cs.COMBOS[2:4]:
             out.append(cs.db_space(4, combo, 0, base_level=-171.6))
         for n in (2, 3):
-            out.append(cs.db_space(n, cs.COMBOS[n % 4], 1, cli=True))
+            out.append(cs.db_space(n, cs.COMBOS[n % 2], 1, cli=True))
     else:
         out.append(cs.db_space(6, cs.COMBOS[3], 0))
         for combo in cs.EXTREME:
@@ -99,7 +99,7 @@ def spaces(tier):
         out.append(cs.db_space(6, cs.COMBOS[2], 1))
         out.append(cs.db_space(7, cs.COMBOS[3], 0))
         for n in (2, 3, 4):
-            out.append(cs.db_space(n, cs.COMBOS[n % 4], 2, cli=True))
+            out.append(cs.db_space(n, cs.COMBOS[n % 2], 2, cli=True))
     return out
 
 
